@@ -147,6 +147,19 @@ func (w *world) judgeDispatches() {
 			}
 			d.Probe("diag-attester-late-dispatch-after-slow-fetch")
 		}
+		// Empty active set: the assignment is trivially empty and there is nothing to fetch. Once the
+		// notice that removed the last validator has reached the (idle) handler and one full tick has
+		// been processed since, any dispatch is MUST-NOT; the first tick after the notice stays MAY
+		// (handlers execute before they reset). Contained finding: the run goes on.
+		if !w.emptySince.IsZero() && !r.at.Before(w.emptySince) {
+			cur := uint64(w.net.EstimatedSlotAtTime(r.at.Unix())) // slot whose tick decided this dispatch
+			if cur > 0 && w.slotStart(cur-1).After(w.effective(fam, w.emptySince)) {
+				d.Finding("dispatch-unassigned", r.role.String()+"/active-set-empty", "%s duty of validator %d for slot %d dispatched at %s although the operator has had no active validator since the indices-change notice at %s (at least one full tick processed since)", r.role, r.v, r.slot, w.rel(r.at), w.rel(w.emptySince))
+				d.Probe("dispatch-while-active-set-empty")
+				continue
+			}
+			d.Probe("may-dispatch-at-first-tick-after-empty-set")
+		}
 		key := w.famKey(fam, r.slot)
 		ok := inRes(w.lastOK(fam, key, T), fam, r.v, r.slot)
 		for _, f := range w.fetches[fam] {
